@@ -610,6 +610,11 @@ func (w *Writer) spellHex(s []byte) []byte {
 		if ws && w.pick("hexWS", 4, 1) == 1 {
 			out = append(out, w.wsByte())
 			w.use("str:hex-ws")
+			// a run of white space (CR LF, a line break and its indentation), also between the two digits of a byte
+			for w.pick("hexWSRun", 2, 1) == 1 {
+				out = append(out, w.wsByte())
+				w.use("str:hex-ws-run")
+			}
 		}
 		switch lower {
 		case 0:
